@@ -146,17 +146,24 @@ Spline<2, double> reparameterize_spline(
     }();
 
     if (ai != inf) {
-      const double dt = std::abs(ai) < eps ? ds / vi : (-vi + std::sqrt(std::max<double>(eps, vi2 + 2 * ds * ai))) / ai;
+      // squared velocity at the end of the segment (kept away from zero), and the constant-acceleration
+      // segment that goes from (si, vi) to (si + ds, vf): duration 2 ds / (vi + vf). Deriving the
+      // duration from the unclamped acceleration instead gives a zero or negative duration, or a
+      // segment that stops short of si + ds, whenever the clamp is active.
+      const double vf2 = std::max<double>(eps, vi2 + 2 * ds * ai);
+      const double vf  = std::sqrt(vf2);
+      const double dt  = 2 * ds / (vi + vf);
+      const double ae  = (vf2 - vi2) / (2 * ds);
 
       // add segment to spline
       ret.concat_global(Spline<2, double>{
         dt,
-        Eigen::Vector2d{dt * vi / 2, dt * (dt * ai + vi) / 2},
+        Eigen::Vector2d{dt * vi / 2, dt * (dt * ae + vi) / 2},
         si,
       });
 
       // update squared velocity with value at end of new segment
-      v2m = ai == inf ? vi2 : std::max<double>(eps, vi2 + 2 * ai * ds);
+      v2m = vf2;
     }
   }
 
